@@ -358,7 +358,13 @@ pub fn run(ctx: &Ctx) -> CheckOutput {
 	tally.add("toml-outputs-read-by-tomllib", nread as u64);
 	for (i, reason) in bad {
 		let (exp, out, desc, case) = &toml.items[i];
-		let class = if reason.starts_with("value differs") { "toml-output-value-differs" } else { "toml-output-not-one-valid-document" };
+		let got_v = reason.strip_prefix("value differs: got ").and_then(crate::model::parse_dump);
+		let want_v = exp.as_ref().and_then(|e| crate::model::parse_dump(e));
+		let class = match (&got_v, &want_v) {
+			(Some(g), Some(w)) if explained_by_toml_nested_order(g, w) => "toml-nested-array-of-tables-before-tables",
+			_ if reason.starts_with("value differs") => "toml-output-value-differs",
+			_ => "toml-output-not-one-valid-document",
+		};
 		let detail = match (exp, reason.strip_prefix("value differs: got ").and_then(crate::model::parse_dump)) {
 			(Some(e), Some(g)) => diff_classes(&[g], &[crate::model::parse_dump(e).unwrap()]).into_iter().map(|x| format!("{}: {}", x.0, x.1)).collect::<Vec<_>>().join("; "),
 			_ => reason.clone(),
